@@ -131,9 +131,13 @@ impl StatusList2021Credential {
     index: usize,
     revoked_or_suspended: bool,
   ) -> Result<StatusList2021Entry, StatusList2021CredentialError> {
+    // `statusListCredential` is the URL of the status list credential itself, which is what the validator
+    // compares it with; the subject id (which may carry a fragment such as `#list`) is only the fallback.
     let id = self
-      .id()
-      .cloned()
+      .inner
+      .id
+      .clone()
+      .or_else(|| self.id().cloned())
       .ok_or(StatusList2021CredentialError::Unreferenceable)?;
     let entry = StatusList2021Entry::new(id, self.purpose(), index, None);
 
